@@ -392,9 +392,11 @@ OPS_MORE = OPS_CORE + ["busyB", "sendbigA", "closeA"]
 OPS_ALL = OPS_MORE + ["sendwaitA", "acksA", "busyA", "closeB", "sendbigB"]
 OPS_ONEWAY = ["sendA", "xferA", "xferB", "recvB"]
 OPS_ACKS = ["xferB", "acksA", "sendA", "xferA", "recvB"]
+OPS_BUSY = ["busyA", "xferA", "sendB", "xferB", "recvA"]
 OPS_CLOSE = ["sendA", "xferA", "recvB", "closeA", "sendB", "xferB"]
 TABLES = {"core": OPS_CORE, "more": OPS_MORE, "all": OPS_ALL,
-          "oneway": OPS_ONEWAY, "acks": OPS_ACKS, "close": OPS_CLOSE}
+          "oneway": OPS_ONEWAY, "acks": OPS_ACKS, "close": OPS_CLOSE,
+          "busy": OPS_BUSY}
 
 
 def run_history(sx, pair, prefix, k, table):
@@ -619,6 +621,13 @@ def partitions(tier):
             add("dlc_pair", [a], 2, "acks", warm=["sendA", "xferA", "recvB"])
         for a in OPS_CORE:
             add("dlc_pair", [a], 2, "core", warm=LAG)
+        # receiver-busy change while a confirmation is pending (a message
+        # was read, its acknowledgement not yet sent)
+        CONF = ["sendB", "xferB", "recvA"]
+        for pre in (["busyA"], ["busyA", "busyA"], ["busyA", "xferA", "busyA"]):
+            add("dlc_pair", pre, 3, "busy", warm=CONF)
+            add("llc_pair", CONF + pre, 2, "busy", agf=1)
+            add("llc_pair", CONF + pre, 2, "busy", agf=0)
         # real handshake; burst from the acceptor fills the connector's window
         for a in OPS_CORE + ["burstB", "burstA", "closeA"]:
             add("handshake_pair", [a], 1, "core", s0sym=0)
@@ -658,6 +667,12 @@ def partitions(tier):
         for a in OPS_CLOSE:
             for b in OPS_CLOSE:
                 add("dlc_pair", [a, b], 3, "close", warm=[])
+        CONF = ["sendB", "xferB", "recvA"]
+        for a in OPS_BUSY:
+            for b in OPS_BUSY:
+                add("dlc_pair", [a, b], 3, "busy", warm=CONF)
+            add("llc_pair", CONF + ["busyA", a], 3, "busy", agf=1)
+            add("llc_pair", CONF + ["busyA", a], 3, "busy", agf=0)
         for a in ("sendA", "sendwaitA", "sendB"):
             add("llc_pair", [a, "sendA", "closeA"], 2, "core", agf=1)
             add("llc_pair", [a, "sendA", "closeA"], 2, "core", agf=0)
@@ -685,7 +700,7 @@ MUST_REACH = ["send:accepted", "send:EMSGSIZE", "send:window-full",
               "wire:ack", "drained", "closed", "llc-pair-established", "acks:yes",
               "handshake-pair-established", "close:all-delivered"]
 BOUNDS = {
-    "quick": "DataLinkConnection pair: RW of both ends symbolic 0..15, initial sequence variables of both directions symbolic 0..15, connection MIU of both ends symbolic 128..2175; histories of up to 4 operations from the 6 core ones {send on A/B, recv on A/B, link exchange A->B / B->A}, up to 3 from 9 (adds 129-octet send, receiver-busy toggle on B, close on A), up to 3 core operations after a 4-operation warm-up, up to 3 from {xfer, poll('acks'), send, recv} after a 3-operation warm-up, up to 3 core operations after the 5-operation 'lagging reader' warm-up (two messages arrived, one taken); afterwards link exchanges and reads until quiescent; a pair produced by the real connect()/listen()/accept() handshake with SO_RCVBUF of both sides symbolic 1..15 and receive MIUs from {128,131}x{128,2175}, ledger initialised from the announced CONNECT/CC values, up to 3 operations including bursts of up to 3 messages in either direction; after close() on one end: link exchanges and peer reads until the end of the connection, everything accepted before close() delivered.  LogicalLinkController pair: real listen/connect/accept handshake over collect()/dispatch(), link MIU symbolic 128..2175, aggregation on/off, up to 3 core operations",
+    "quick": "DataLinkConnection pair: RW of both ends symbolic 0..15, initial sequence variables of both directions symbolic 0..15, connection MIU of both ends symbolic 128..2175; histories of up to 4 operations from the 6 core ones {send on A/B, recv on A/B, link exchange A->B / B->A}, up to 3 from 9 (adds 129-octet send, receiver-busy toggle on B, close on A), up to 3 core operations after a 4-operation warm-up, up to 3 from {xfer, poll('acks'), send, recv} after a 3-operation warm-up, up to 3 core operations after the 5-operation 'lagging reader' warm-up (two messages arrived, one taken); afterwards link exchanges and reads until quiescent; a pair produced by the real connect()/listen()/accept() handshake with SO_RCVBUF of both sides symbolic 1..15 and receive MIUs from {128,131}x{128,2175}, ledger initialised from the announced CONNECT/CC values, up to 3 operations including bursts of up to 3 messages in either direction; up to 4 operations from {busy toggle on A, xfer, send B, recv A} after a message was read on A and its acknowledgement is still pending (DLC pair and LLC pair, aggregation on/off); after close() on one end: link exchanges and peer reads until the end of the connection, everything accepted before close() delivered.  LogicalLinkController pair: real listen/connect/accept handshake over collect()/dispatch(), link MIU symbolic 128..2175, aggregation on/off, up to 3 core operations",
     "thorough": "as quick with up to 5 core operations (also after two warm-up prefixes), up to 6 of the one-direction operations {send A, xfer A, xfer B, recv B}, 2 fixed (14 x 9; adds blocking send, poll('acks'), busy on A, close on B, 129-octet send on B) + 2 from 9, up to 5 of the acknowledgement-counter operations, LLC pair histories of up to 4 operations",
 }
 OUTSIDE = ["real thread schedules of blocking application calls against the two link run loops (the blocking half of the property's quantifier): a call that reaches Condition.wait() is an event here, not a sleeping thread",
